@@ -129,6 +129,8 @@ class ExecBase:
         self._solver = None
         ops_mod.CLASS_ID_HOOK[0] = self.class_id
         self.inv_tags = {}
+        self.arr_bound = {}
+        self.force_inline = set()
         self._qf_cache = {}
         self.paranoid = bool(__import__('os').environ.get('PYVC_PARANOID'))
         self._wf_done = set()
@@ -175,6 +177,7 @@ class ExecBase:
         if key not in self.init_heap:
             a = z3.Const("H_" + key, z3.ArraySort(z3.IntSort(), sort.z3()))
             self.init_heap[key] = a
+            self.arr_bound[a.get_id()] = self.top0
         return self.init_heap[key]
 
     def _heap_wf(self, arr, sort, top, into=None):
@@ -196,23 +199,62 @@ class ExecBase:
             into.append(z3.ForAll([o], sort.len(l) >= 0))
             into.append(z3.ForAll([o, i], z3.Or(z3.And(i >= 0, i < sort.len(l)), z3.Select(sort.arr(l), i) == default_term(sort.elem))))
 
+    def resolve_field_class(self, st, obj: VRef, name):
+        """`name` is declared with a different sort for some classes (e.g. Constant.value, Lambda.args): the heap array is selected
+        by the static class of the object, so the static class must decide whether the object is of such a class.  When it does
+        not, the path condition must (narrow), otherwise the access is ambiguous and the function is outside the subset."""
+        variants = self.reg.variant_classes(name) if hasattr(self.reg, "variant_classes") else []
+        if not variants:
+            return obj
+        if obj.cls is not None and any(self.repo.is_subclass(obj.cls, c) for c in variants):
+            return obj
+        for c in variants:
+            if obj.cls is not None and not self.repo.is_subclass(c, obj.cls):
+                continue  # disjoint from the static class (single inheritance world)
+            inst = self.isinstance_term(obj, c)
+            if not self.feasible(st, z3.Not(inst)):
+                return VRef(obj.t, c, exact=False)
+            if self.feasible(st, inst):
+                raise Unsupported("ambiguous access to field %s: the object may or may not be a %s (static class %s)" % (name, c, obj.cls))
+        return obj
+
     def read_field(self, st, obj: VRef, name):
+        obj = self.resolve_field_class(st, obj, name)
         s = self.field_sort(name, obj.cls)
         if s is None:
             return None
         a = self.heap_arr(st, self.heap_key(name, obj.cls), s)
         v = mk_val(z3.Select(a, obj.t), s)
+        if isinstance(v, VFuncRef):
+            v.field = name
         # representation invariants of the cell that was read (true of every cell of a live object)
-        key = (a.get_id(), obj.t.get_id())
+        # representation invariants are stated for the cell of the BASE array (below all stores of this function), with the
+        # allocation bound that held when that array version came into being: references in it cannot point to objects
+        # allocated later
+        base = a
+        while z3.is_store(base):
+            base = base.arg(0)
+        bound = self.arr_bound.get(base.get_id(), st.top)
+        key = (base.get_id(), obj.t.get_id())
         if key not in st.wf_seen:
             st.wf_seen.add(key)
-            live = z3.And(obj.t > 0, obj.t < st.top)
+            live = z3.And(obj.t > 0, obj.t < bound)
             w = State()
-            w.top = st.top
-            self.assume_wf(w, v, nullable=True)
+            w.top = bound
+            self.assume_wf(w, mk_val(z3.Select(base, obj.t), s), nullable=True)
             if w.pc:
                 f = z3.Implies(live, z3.And(*w.pc))
                 st.pc.append(f)
+        if base is not a:
+            # the current version of the cell (after the stores of this function): references in it are below the CURRENT allocation top
+            key2 = (a.get_id(), obj.t.get_id())
+            if key2 not in st.wf_seen:
+                st.wf_seen.add(key2)
+                w = State()
+                w.top = st.top
+                self.assume_wf(w, v, nullable=True)
+                if w.pc:
+                    st.pc.append(z3.Implies(z3.And(obj.t > 0, obj.t < st.top), z3.And(*w.pc)))
         return v
 
     def narrow(self, st, v, want: Sort):
@@ -257,6 +299,7 @@ class ExecBase:
         return self.narrow(st, v, want)
 
     def write_field(self, st, obj: VRef, name, v: Val):
+        obj = self.resolve_field_class(st, obj, name)
         s = self.field_sort(name, obj.cls)
         if s is None:
             raise Unsupported("store to undeclared field %s (class %s)" % (name, obj.cls))
@@ -267,13 +310,21 @@ class ExecBase:
                 raise Unsupported("possibly-None value stored into non-optional field %s" % name)
             v = mk_val(v.sort.the(v.t), v.sort.inner)
         v = self.narrow(st, v, s)
+        tsort = s.inner if isinstance(s, TOpt) else s
+        if isinstance(v, VTuple) and isinstance(tsort, TTup) and len(v.items) == len(tsort.items):
+            v = VTuple([self.narrow(st, i, so) for i, so in zip(v.items, tsort.items)], v.is_list)
         try:
             t = term_of(v, s)
         except Unsupported:
             # a value of another python type is stored into this attribute (legal python, but every reader of the attribute
             # in this code base expects the declared type): reported as a failed obligation, execution continues with an
             # arbitrary value
-            self.oblige(st, z3.BoolVal(False), "implicit", "well_typed_store[%s]" % name)
+            exc = getattr(self, "typing_exceptions", {}) or {}
+            if name in exc:
+                self.warnings.append("typing exception in %s: a value of another Python type is stored into field %s (%s); readers of that cell "
+                                     "are assumed not to rely on the declared type" % (self.cur_fn, name, exc[name]))
+            else:
+                self.oblige(st, z3.BoolVal(False), "implicit", "well_typed_store[%s]" % name)
             t = z3.FreshConst(s.z3(), "illtyped")
         st.heap[k] = z3.Store(a, obj.t, t)
 
